@@ -655,9 +655,10 @@ def run(run, model, proof):
         for n in range(1, 34):                                   # every length of the last line
             check_renderings(run, model, synth[0], tmpdir, rng, PATTERNS[n % 6] + bytes(range(n)), ())
         check_file(run, model, synth[0], tmpdir, "", "file:empty", raw=b"", fmt="1")
-        if thorough:                                             # beyond 64 KB the format-1 address column wraps
+        if True:                                                 # beyond 64 KB the format-1 address column wraps (quick tier too since C17_m)
             big = bytes(rng.randrange(256) for _ in range(66000))
             big = big[:40000] + good_buffer(rng, synth[0], b"POWR") + big[40000:]
+            big = big[:65700] + good_buffer(rng, synth[0], b"IICS") + big[65700:]      # a buffer that lies wholly beyond the wrap
             check_renderings(run, model, synth[0], tmpdir, rng, big, ())
 
         # ---- the command line, a sample ----
